@@ -823,12 +823,16 @@ def write_pam(matrix, matrix_size, out, scale=1, border=None, dark='#000', light
     colours = None
     if not is_rgb and transparency:
         depth = 2
-        colours = (b'\x01\x00', b'\x00\x01')
+        # (gray, alpha): the modules are either black or white, the background is transparent
+        colours = (b'\x01\x00', b'\x00\x01') if _color_is_black(stroke_color) else (b'\x00\x00', b'\x01\x01')
     elif is_rgb:
-        maxval = max(chain(stroke_color, bg_color))
+        maxval = 255
         depth = 3 if not transparency else 4
         fmt = f'>{depth}B'.encode('ascii')
         colours = (pack(fmt, *bg_color), pack(fmt, *stroke_color))
+    elif not (_color_is_black(stroke_color) and _color_is_white(bg_color)):
+        # BLACKANDWHITE but not black modules on a white background
+        colours = tuple(b'\x00' if _color_is_black(clr) else b'\x01' for clr in (bg_color, stroke_color))
     row_filter = invert_row_bits if colours is None else partial(row_to_color_values, colours=colours)
     with writable(out, 'wb') as f:
         write = f.write
